@@ -230,7 +230,16 @@ static void dist_ops(World &w, const Op &o, int ri) {
     int which = (int)(o.u("w") % 3);
     if (which == 0 && o.u("all") % 4 == 0) { errno = 0; int rc = hwloc_distances_remove(t); int e = errno; r.ev("dist_remove all r%d -> %d", ri, rc); if (R.adopted) { if (rc == 0) viol0(w, "C19", "shm.modify_not_refused", "distances_remove on an adopted topology returned %d errno %d", rc, e); return; } if (rc) viol0(w, own, "dist.remove_failed", "distances_remove failed"); R.user_dists.clear(); r.count("probe.dist_removed"); return; }
     if (which == 1) {
-      int ty = DTYPES[o.u("ty") % 8]; int depth = hwloc_get_type_depth(t, (hwloc_obj_type_t)ty); if (depth == HWLOC_TYPE_DEPTH_UNKNOWN || depth == HWLOC_TYPE_DEPTH_MULTIPLE) { r.ev("dist_remove by_depth: no single depth"); return; }
+      int ty = DTYPES[o.u("ty") % 8]; int depth = hwloc_get_type_depth(t, (hwloc_obj_type_t)ty); if (depth == HWLOC_TYPE_DEPTH_UNKNOWN || depth == HWLOC_TYPE_DEPTH_MULTIPLE || o.u("idx") % 7 == 0) {
+        // a depth that designates no level (type absent or at several depths, beyond the last level, far below the special depths) targets nothing:
+        // whatever the call returns, the list must be as it was (the reference list is left alone; check_models compares after the op)
+        int bad = (depth == HWLOC_TYPE_DEPTH_UNKNOWN || depth == HWLOC_TYPE_DEPTH_MULTIPLE) ? depth : (o.u("idx") % 2 ? hwloc_topology_get_depth(t) + 2 : -100);
+        if (R.adopted) { r.ev("dist_remove by_depth: invalid depth skipped on an adopted replica"); return; }
+        unsigned n0 = 0, n1 = 0; hwloc_distances_get(t, &n0, nullptr, 0, 0);
+        errno = 0; int rc = hwloc_distances_remove_by_depth(t, bad); int e = errno; hwloc_distances_get(t, &n1, nullptr, 0, 0);
+        r.ev("dist_remove by_depth invalid depth %d r%d -> %d e=%d", bad, ri, rc, rc ? e : 0); r.count("probe.dist_remove_invalid_depth");
+        if (n0 != n1) viol0(w, own, "dist.remove_invalid_depth", "distances_remove_by_depth(%d), a depth that designates no level, returned %d and removed %u of %u structures", bad, rc, n0 - n1, n0);
+        return; }
       errno = 0; int rc = hwloc_distances_remove_by_depth(t, depth); int e = errno; r.ev("dist_remove by_depth %s r%d -> %d", hwloc_obj_type_string((hwloc_obj_type_t)ty), ri, rc);
       if (R.adopted) { if (rc == 0) viol0(w, "C19", "shm.modify_not_refused", "distances_remove_by_depth on an adopted topology returned %d errno %d", rc, e); return; }
       if (rc) viol0(w, own, "dist.remove_failed", "distances_remove_by_depth failed");
